@@ -418,6 +418,15 @@ class Program:
         if not isinstance(e, ast.Name):
             return None
         root = self.resolve_name(scope, module, e.id)
+        hops = 0
+        while isinstance(root, tuple) and root[0] == 'local' and isinstance(root[2], (ast.Name, ast.Attribute)) \
+                and hops < 4:
+            # local alias of a module / external object: `generator = np.random`
+            hops += 1
+            if isinstance(root[2], ast.Name):
+                root = self.resolve_name(root[1], module, root[2].id)
+            else:
+                root = self.dotted(root[1], module, root[2])
         parts.reverse()
         if isinstance(root, Ext):
             return Ext(root.dotted + '.' + '.'.join(parts))
